@@ -303,13 +303,13 @@ Proof.
     apply (rep_terminal _ _ R) in Hin. apply terminal_has_path, has_path_app in Hin. congruence.
 Qed.
 
-Lemma ref_walk_model t d : rep t d -> forall s p n,
+Lemma ref_mlen_model t d : rep t d -> forall s p n,
   walk (root t) p = Some n -> is_end n = false ->
-  ref_walk d p s = match mlen n s with Some _ => true | None => false end.
+  ref_mlen d p s = mlen n s.
 Proof.
   intros R. induction s as [|c s IH]; intros p n Hw He.
   - rewrite (mlen_nil n He). reflexivity.
-  - cbn [ref_walk]. rewrite mlen_cons.
+  - cbn [ref_mlen]. rewrite mlen_cons.
     assert (Hstep : forall x, has_prefix d (p ++ [x]) = match child_get x (children n) with Some _ => true | None => false end).
     { intros x. rewrite (has_prefix_path t d (p ++ [x]) R) by (destruct p; discriminate).
       unfold has_path. rewrite walk_snoc, Hw. reflexivity. }
@@ -320,11 +320,16 @@ Proof.
     unfold contains_child. rewrite !Hstep.
     destruct (child_get c (children n)) as [m|] eqn:Ec.
     + destruct (Hend c m Ec) as [Hwm Hem]. rewrite Hem. destruct (is_end m) eqn:Em; [reflexivity|].
-      rewrite (IH (p ++ [c]) m Hwm Em). destruct (mlen m s); reflexivity.
+      rewrite (IH (p ++ [c]) m Hwm Em). reflexivity.
     + destruct (child_get star (children n)) as [m|] eqn:Es; [|reflexivity].
       destruct (Hend star m Es) as [Hwm Hem]. rewrite Hem. destruct (is_end m) eqn:Em; [reflexivity|].
-      rewrite (IH (p ++ [star]) m Hwm Em). destruct (mlen m s); reflexivity.
+      rewrite (IH (p ++ [star]) m Hwm Em). reflexivity.
 Qed.
+
+Lemma ref_walk_model t d : rep t d -> forall s p n,
+  walk (root t) p = Some n -> is_end n = false ->
+  ref_walk d p s = match mlen n s with Some _ => true | None => false end.
+Proof. intros R s p n Hw He. unfold ref_walk. rewrite (ref_mlen_model t d R s p n Hw He). reflexivity. Qed.
 
 Lemma model_contains_general ops s : contains_text (run ops) s = ref_contains (spec_run ops) s.
 Proof.
@@ -335,4 +340,61 @@ Proof.
   rewrite (ref_walk_model _ _ R (x :: s) [] (root (run ops)) eq_refl He).
   destruct (mlen (root (run ops)) (x :: s)); [reflexivity|]. cbn [orb]. rewrite <- IH.
   destruct (first_match (root (run ops)) s) as [[j k]|]; reflexivity.
+Qed.
+
+(* ---------- on EVERY dictionary matching is a function of the word set ---------- *)
+
+Lemma has_prefix_iff d p : has_prefix d p = true <-> exists w, In w d /\ exists r, w = p ++ r.
+Proof.
+  unfold has_prefix. rewrite existsb_exists. split; intros [w [Hin H]]; exists w; (split; [exact Hin|]);
+    apply prefix_b_literal; exact H.
+Qed.
+
+Lemma bool_eq_iff (a b : bool) : (a = true <-> b = true) -> a = b.
+Proof. destruct a, b; intros [H1 H2]; try reflexivity; [symmetry; apply H1; reflexivity | apply H2; reflexivity]. Qed.
+
+Lemma ref_mlen_ext d1 d2 : (forall w, In w d1 <-> In w d2) -> forall s p, ref_mlen d1 p s = ref_mlen d2 p s.
+Proof.
+  intros H.
+  assert (Hp : forall p, has_prefix d1 p = has_prefix d2 p).
+  { intros p. apply bool_eq_iff. rewrite !has_prefix_iff. split; intros [w [Hin Hr]]; exists w; (split; [apply H; exact Hin | exact Hr]). }
+  assert (Hm : forall w, wmem w d1 = wmem w d2).
+  { intros w. apply bool_eq_iff. rewrite !wmem_In. apply H. }
+  induction s as [|c s IH]; intros p; [reflexivity|]. cbn [ref_mlen]. rewrite !Hp.
+  destruct (has_prefix d2 (p ++ [c])); [rewrite Hm, IH; reflexivity|].
+  destruct (has_prefix d2 (p ++ [star])); [rewrite Hm, IH; reflexivity | reflexivity].
+Qed.
+
+Lemma mlen_depends_on_words ops1 ops2 :
+  (forall w, terminal (root (run ops1)) w = terminal (root (run ops2)) w) ->
+  forall u, mlen (root (run ops1)) u = mlen (root (run ops2)) u.
+Proof.
+  intros H u. destruct (inv_run ops1) as [R1 _]. destruct (inv_run ops2) as [R2 _].
+  rewrite <- (ref_mlen_model _ _ R1 u [] _ eq_refl (root_not_end ops1)).
+  rewrite <- (ref_mlen_model _ _ R2 u [] _ eq_refl (root_not_end ops2)).
+  apply ref_mlen_ext. intros w. rewrite <- (rep_terminal _ _ R1), <- (rep_terminal _ _ R2), H. tauto.
+Qed.
+
+Lemma matching_depends_on_words_general ops1 ops2 :
+  (forall w, terminal (root (run ops1)) w = terminal (root (run ops2)) w) ->
+  forall s, contains_text (run ops1) s = contains_text (run ops2) s /\
+            filter_text (run ops1) s = filter_text (run ops2) s /\
+            exact_match (run ops1) s = exact_match (run ops2) s.
+Proof.
+  intros H s. pose proof (mlen_depends_on_words ops1 ops2 H) as Hm. repeat split.
+  - rewrite !contains_text_first_match, (first_match_ext _ _ s Hm). reflexivity.
+  - rewrite !filter_text_filt by apply root_not_end. apply filt_ext, Hm.
+  - unfold exact_match. destruct s as [|x s]; [reflexivity|].
+    rewrite !(starts_loop_mlen _ _ 0) by lia. rewrite Hm. reflexivity.
+Qed.
+
+(* a dictionary all of whose CURRENT words are literal has a literal trie, whatever was added
+   and removed before (pruning leaves no trace of removed words) *)
+Lemma literal_of_words ops :
+  (forall w, terminal (root (run ops)) w = true -> ~ In star w) -> literal (root (run ops)).
+Proof.
+  intros H p Hp Hin. destruct (inv_run ops) as [R _].
+  destruct p as [|x p]; [contradiction|].
+  destruct (rep_pruned _ _ R (x :: p) ltac:(discriminate) Hp) as [q Hq].
+  apply (H _ Hq). apply in_app_iff. left. exact Hin.
 Qed.
